@@ -40,6 +40,11 @@ R["C17"] = "cases: operation sequences of length 1..40 over 4 vectors, dimension
 R["C18"] = ("cases: 30% ext_gcd pairs, 20% inverses, 12% primality blocks, 38% SpVecFP histories. distinct = case hash; non-trivial = negative or zero argument (gcd), a outside 0..p-1 (inverse), "
             "every primality block, a wrap-around / negative / >= p scalar (SpVecFP)")
 
+R["C11"] = ("cases: DIMACS file (n <= 8, integer weights <= 400; 40% with 1-2 injected precondition violations) x program in {mcb-dimacs, approx-mcb-dimacs, collection-stats-dimacs, mcb-dimacs-mpi} x "
+            "option vector (algorithm selection, --parallel, --cores, -v, --printcycles, --k 2..4, file first/last, boolean spellings) x P in {1,2,3,4,6} for the MPI demo x TBB/MPI choices. "
+            "distinct = (file hash, argv, P, schedule fingerprint); non-trivial = rejected input with P >= 2, or valid input with a cycle")
+R["C20"] += "; demo part: mcb-dimacs / approx-mcb-dimacs with --cores n in {1,2,3,4,7} and parallel algorithm, non-trivial when -v is absent"
+
 def run(prop, tier, seed):
     if prop not in vlib.STAGES:
         print("HARNESS-ERROR: no check registered for " + prop)
